@@ -474,6 +474,85 @@ func c16Misc(ctx *run.Ctx) {
 			}
 		}
 	})
+	// Zipping branches of ONE Duplicate with an independent stream of a
+	// different length: the longer inputs must still be consumed to the end
+	// (the shared source's producer must reach its close), whichever
+	// argument position the short stream takes.
+	ctx.Case("Operate-over-Duplicate/int", func(cc *run.Case) {
+		type shape struct {
+			name  string
+			build func(in []<-chan int) []<-chan int
+		}
+		f2 := func(a, b int) int { return a*1000 + b }
+		f3 := func(a, b, c int) int { return a*1000000 + b*1000 + c }
+		shapes := []shape{
+			{"Operate(dup0, other)", func(in []<-chan int) []<-chan int {
+				d := helper.Duplicate(in[0], 2)
+				go helper.Drain(d[1])
+				return one(helper.Operate(d[0], in[1], f2))
+			}},
+			{"Operate3(dup0, dup1, other)", func(in []<-chan int) []<-chan int {
+				d := helper.Duplicate(in[0], 2)
+				return one(helper.Operate3(d[0], d[1], in[1], f3))
+			}},
+			{"Operate3(dup0, other, dup1)", func(in []<-chan int) []<-chan int {
+				d := helper.Duplicate(in[0], 2)
+				return one(helper.Operate3(d[0], in[1], d[1], f3))
+			}},
+			{"Operate3(other, dup0, dup1)", func(in []<-chan int) []<-chan int {
+				d := helper.Duplicate(in[0], 2)
+				return one(helper.Operate3(in[1], d[0], d[1], f3))
+			}},
+			{"Operate(dup0, Operate(dup1, other))", func(in []<-chan int) []<-chan int {
+				d := helper.Duplicate(in[0], 2)
+				return one(helper.Operate(d[0], helper.Operate(d[1], in[1], f2), f2))
+			}},
+		}
+		for si, sh := range shapes {
+			for na := 0; na <= 5; na++ {
+				for nb := 0; nb <= 5; nb++ {
+					a, b := make([]int, na), make([]int, nb)
+					for i := range a {
+						a[i] = 1 + i
+					}
+					for i := range b {
+						b[i] = 11 + i
+					}
+					n := min(na, nb)
+					want := make([]int, n)
+					for i := range want {
+						switch si {
+						case 0:
+							want[i] = f2(a[i], b[i])
+						case 1:
+							want[i] = f3(a[i], a[i], b[i])
+						case 2:
+							want[i] = f3(a[i], b[i], a[i])
+						case 3:
+							want[i] = f3(b[i], a[i], a[i])
+						case 4:
+							want[i] = f2(a[i], f2(a[i], b[i]))
+						}
+					}
+					for _, s := range c16Scheds {
+						cc.Desc(map[string]any{"shape": sh.name, "len_shared": na, "len_other": nb, "sched": s})
+						census.Begin()
+						res := mon.Run([][]int{a, b}, s, sh.build)
+						cc.Count("pipeline_runs", 1)
+						if !eqSlice(res.Outs[0], want) {
+							cc.Viol("", fmt.Sprintf("%s with lengths %d/%d: got %v, slice model gives %v", sh.name, na, nb, res.Outs[0], want), nil)
+							return
+						}
+						if lk := census.End(); lk != nil && !lk.Unsettled {
+							cc.Viol("", fmt.Sprintf("%s with lengths %d/%d left %d goroutine(s) behind: %s", sh.name, na, nb, lk.Count, mon.LeakSite(lk.Stacks[0])), lk)
+							return
+						}
+					}
+					cc.Distinct(fmt.Sprintf("opdup/%d/%d/%d", si, na, nb))
+				}
+			}
+		}
+	})
 	ctx.Case("Since/exhaustive", func(cc *run.Case) {
 		// every sequence of length <= 7 over a 3-letter alphabet
 		for n := 0; n <= 7; n++ {
